@@ -127,6 +127,7 @@ structure Sys where
 inductive Choice
   | reply (i : Nat)                      -- deliver pool[i] (again)
   | other (chan : Nat) (data : Bytes)    -- a packet on another channel of the port (settings, data, misc ...)
+  | disconnect                           -- the link is lost or closed: `cf.disconnected` is called
   deriving Repr, DecidableEq
 
 /-- dispatch one packet to the fetcher's callback; an exception is swallowed by the dispatcher -/
@@ -142,6 +143,7 @@ def Sys.step (dec : Nat → Bytes → Except PyErr Elem) (d : Dev) (s : Sys) : C
     | some p => s.deliver dec d 0 p
     | none => s
   | .other chan data => if chan = 0 then s else s.deliver dec d chan data
+  | .disconnect => { s with f := s.f.disconnect }
 
 /-- `TocFetcher.start()`: the info request goes out -/
 def Sys.init (d : Dev) : Option Sys :=
@@ -170,6 +172,7 @@ inductive XChoice
   | reply (i : Nat)                      -- deliver pool[i] (again) on the misc channel
   | other (chan : Nat) (data : Bytes)    -- any packet on another channel of the param port (e.g. stale TOC replies)
   | worker                               -- the fetcher's thread runs one loop iteration (if enabled)
+  | disconnect                           -- the link is lost or closed: `cf.disconnected` is called
   deriving Repr, DecidableEq
 
 def XSys.deliver (s : XSys) (chan : Nat) (data : Bytes) : XSys :=
@@ -187,6 +190,7 @@ def XSys.step (persistent : Nat → Bool) (s : XSys) : XChoice → XSys
     match s.x.worker with
     | some (x', r) => { x := x', pool := s.pool ++ (extReply persistent r).toList, sent := s.sent ++ [r] }
     | none => s
+  | .disconnect => { s with x := s.x.disconnect }
 
 def XSys.run (persistent : Nat → Bool) (s : XSys) (cs : List XChoice) : XSys :=
   cs.foldl (XSys.step persistent) s
